@@ -233,7 +233,12 @@ def composite(res):
           # accepted statements whose later phases compare values: NULL keys in ORDER BY, DISTINCT and both PIVOT BY columns, intervals
           'SELECT s, b, sum(i) FROM #t GROUP BY s, b PIVOT BY s, b', 'SELECT b, s, count(*) FROM #t GROUP BY 1, 2 PIVOT BY 1, 2', 'SELECT t, i, sum(d) FROM #t GROUP BY t, i PIVOT BY t, i',
           'SELECT s, sum(d) FROM #t GROUP BY s ORDER BY s DESC', 'SELECT DISTINCT t, b FROM #t ORDER BY t, b', "SELECT t - interval('1 day'), t + interval('1 month'), interval('1 day') + t FROM #t",
-          "SELECT interval('1 month') - t FROM #t", "SELECT interval('2 days') - interval('1 day') FROM #t", 'SELECT round(d), round(d, 1), round(i), round(sum(d)) FROM #t']
+          "SELECT interval('1 month') - t FROM #t", "SELECT interval('2 days') - interval('1 day') FROM #t", 'SELECT round(d), round(d, 1), round(i), round(sum(d)) FROM #t',
+          # every field of date_part / date_trunc (the field is a string operand: a registry sweep over string pools never names one)
+          "SELECT date_part('epoch', t), date_part('year', t), date_part('month', t), date_part('day', t), date_part('dow', t), date_part('doy', t), date_part('week', t), date_part('quarter', t), date_part('decade', t), date_part('century', t), date_part('millennium', t), date_part('isoyear', t), date_part('isodow', t) FROM #t",
+          "SELECT sum(date_part('epoch', t)), date_part('epoch', t) + 1, date_trunc('month', t), date_trunc('week', t), date_trunc('year', t) FROM #t GROUP BY t",
+          # value columns in front of / between the PIVOT BY columns: the pivoted columns are typed like the value columns
+          'SELECT sum(d), s, b FROM #t GROUP BY s, b PIVOT BY s, b', 'SELECT s, sum(i), b, max(t) FROM #t GROUP BY s, b PIVOT BY 1, 3', 'SELECT max(t), count(*), b, s FROM #t GROUP BY b, s PIVOT BY b, s']
     for q in qs:
         res.case(q)
         try:
